@@ -45,9 +45,19 @@ def exec_bms(scn):
     f = scn["file"]
     if scn.get("ext"):
         f = dict(f, sigs=scn["sigs"])
+    lane = next((ln["ch"] for ln in f["lines"] if ln["ch"] not in ("03", "08")), None)
+    fine = v % 13 == 5 and lane and not scn.get("ext")
+    if fine:
+        # a very fine line (800 / 1536 subdivisions) with an object on an odd index, in a later measure of a lane in use
+        dd = [800, 1536][v % 2]
+        f = dict(f, lines=list(f["lines"]) + [{"m": 3, "ch": lane, "d": dd, "objs": [{"i": dd // 2 + 1, "id": "01", "val": 0}]}])
+    if scn.get("override"):
+        # measure 0 carries a mid-measure change on channel 03 and, later in the file, an override of #BPM at its start on channel 08
+        f = dict(f, lines=list(f["lines"]) + [{"m": 0, "ch": "03", "d": 2, "objs": [{"i": 1, "id": "T", "val": 25000}]},
+                                               {"m": 0, "ch": "08", "d": 1, "objs": [{"i": 0, "id": "T", "val": 40000}]}])
     # ids written consistently in lower case (header keys, LNOBJ, data); measures far into the file (9xx)
     idmap = {"01": "az", "02": "b7", "ZZ": "zz"} if v % 5 == 2 else {"01": "Az", "02": "0z"} if v % 5 == 4 else None
-    moff = (899 if v % 11 == 3 else 997 if v % 11 == 7 else 0) if not scn.get("ext") else 0
+    moff = (899 if v % 11 == 3 else 997 if v % 11 == 7 else 0) if not scn.get("ext") and not fine else 0
     lines = concretize(f, r, merge=(v % 2 == 1), shuffle=(v % 3 != 0), lower=False, late_headers=(v % 7 == 5), idmap=idmap, moff=moff)
     ftok = lex(lines)
     rec = {"id": scn["id"] + "/read", "op": "read", "cls": f"bms.read.{scn['layout']}.{'ordered' if v % 3 == 0 else 'shuffled'}",
